@@ -264,6 +264,14 @@ type side struct {
 type Stats struct {
 	Ver, Mode                      string
 	Writes, Bytes, Closes, Workers int
+	// key-update scenarios
+	KeyUpdates, KeyUpdateReqs, Delayed int
+	// deadline scenarios: reader-visible timeouts, gates passed and transport timeouts at a gate per split class
+	Timeouts     int
+	Spans        int // pieces that reached into the next record's header
+	AlertGates   int // look-ahead alert records held back
+	Gates        [5]int
+	GateTimeouts [5]int
 }
 
 // RunScenario runs one concurrent scenario; returns a violation description ("" = none).
